@@ -68,6 +68,12 @@ TEXTS = {
         "level_text": "Exploration: 40k (quick) / 600k (thorough) round trips over the 36 (format, pixel type) pairs of the write-support tables, widths covering every padding residue (BMP mod 4, 1/2/4-bit rows mod 8, TIFF tile edges 16/32 with exact multiples), organisations whole/sub-view/sub-sampled/flipped/transposed, four content kinds, file name / FILE* / std stream on both the write and the read side (optionally crossing them), TIFF none/LZW/deflate/packbits x strips/tiles.",
         "level_note": "Temporary files live in the check's build directory. libpng/libjpeg/libtiff are trusted to be inverse to themselves; GIL's use of them is what is exercised.",
     },
+    "C11": {
+        "technique": "structured mutation sweep (complete truncation and header-field boundary enumeration, seeded random/insert/long-number mutations of valid files of every variant) plus coverage-guided libFuzzer campaigns per format, all under ASan/UBSan with guard-page destinations, a BOOST_ASSERT trap, an allocation cap and a per-case watchdog; truncation-must-throw oracle for the decoders GIL implements itself",
+        "engine": "enumeration/mutation harness + libFuzzer (clang -fsanitize=fuzzer,address,undefined) built by ./check",
+        "level_text": "Exploration: per format (BMP 12 variants incl. 1/4/8-bit palette, RLE4/RLE8, top-down, 32-bit; PNM binary+ASCII P1-P6; TARGA raw/RLE x origin x 24/32; PNG gray/rgb/rgba/16-bit/1-bit/4-bit; TIFF strip/tile x none/LZW; JPEG gray/rgb) EVERY truncation length of every base file at two shapes, every byte position of the first 64 bytes (and a lattice beyond) x 26 boundary values as 8/16/32-bit fields, 25k/400k seeded multi-byte mutations, each through 13 entry points (read_image_info, read_image x5 pixel types, read_and_convert_image, read_view/read_and_convert_view into guard-page views, scanline loop, any_image, two sub-rectangle reads) x {istream, FILE*, file name}: about 0.4M (quick) / 3M (thorough) structured cases plus six libFuzzer campaigns of 75 s / 25 min seeded with all base files. Outcome oracle: return or C++ exception; never a sanitizer report, guard fault, assertion, longjmp into a dead frame, or a case above the watchdog. Truncation oracle: a whole-image read of a BMP/PNM/TARGA file that lacks at least one whole sample must throw.",
+        "level_note": "Sanitizers see heap/stack/global overruns and UB; intra-object overruns are visible only through UBSan's array-bounds check (which is how the PNM digit buffer was caught). Uninitialised-read detection is indirect (truncation oracle) because MSan cannot be used with the un-instrumented codec libraries. Leaks on error paths are out of scope. libFuzzer campaigns are only approximately reproducible from the seed; a saved artifact is the reproducible unit (./check C11 --replay <artifact>).",
+    },
     "C13": {
         "technique": "rapidcheck-generated valid files (GIL writers, hand-serialised BMP/TARGA/PNM variants, corpus files) and read recipes; differential of every read path against the full native read_image; guard-page destinations with identity tags",
         "level_text": "Exploration: 15k (quick) / 240k (thorough) (file, recipe) cases over 6 formats and 97 file variants (bottom-up/top-down, 1/4/8-bit palette, RLE4/RLE8, 16/24/32-bit BMP; ASCII and binary PNM; raw/RLE x both origins TARGA; PNG incl. PngSuite palette/tRNS/16-bit; strip/tile x none/LZW/packbits TIFF; JPEG). Per file: three device kinds, read_image_info, EVERY sub-rectangle for images up to 6x6 (11 sampled otherwise), read_view exact / too small in guard-page memory, read_and_convert_image/view to four pixel types vs color_convert of the native read, scanline rows, any_image.",
